@@ -10,6 +10,7 @@ import FgaVerif.Model.ModFile
 import FgaVerif.Model.PGraph
 import FgaVerif.Model.WGraph
 import FgaVerif.Spec.Weights
+import FgaVerif.Gen.Atn
 /-! Line-protocol driver: one S-expression operation per input line, one canonical result per
     output line. Runs the executable model definitions only (no proofs are imported). -/
 namespace FgaVerif.Driver
@@ -196,6 +197,20 @@ def opWSpec (m : Sexp) (grouped : Bool) : String :=
         "(ok" ++ String.join (vis.map fun n =>
           s!" ({Sexp.quote n.name} {wmapS (Spec.Weights.stateGet st n.name)} ({" ".intercalate ((Spec.Weights.wildTargets g n.name).map Sexp.quote)}))") ++ ")"
 
+def opAtnTable (which : String) : String :=
+  let t : Option (List String) := match which with
+    | "parser-rules" => some Gen.Atn.goParserRules
+    | "parser-symbolic" => some Gen.Atn.goParserSymbolic
+    | "parser-literal" => some Gen.Atn.goParserLiteral
+    | "lexer-rules" => some Gen.Atn.goLexerRules
+    | "lexer-symbolic" => some Gen.Atn.goLexerSymbolic
+    | "lexer-literal" => some Gen.Atn.goLexerLiteral
+    | "lexer-modes" => some Gen.Atn.goLexerModes
+    | _ => none
+  match t with
+  | some xs => "(" ++ " ".intercalate (xs.map Sexp.quote) ++ ")"
+  | none => "bad-op"
+
 def step (line : String) : String :=
   match Sexp.parse line with
   | none => "bad-op"
@@ -209,6 +224,7 @@ def step (line : String) : String :=
   | some (.list [.atom "pgraph-rev2", m]) => opPGraph m 2
   | some (.list [.atom "ppaths", m]) => opPPaths m
   | some (.list [.atom "pcycles", m]) => opPCycles m
+  | some (.list [.atom "atn-table", .atom w]) => opAtnTable w
   | some (.list [.atom "wstruct", m]) => opWStruct m
   | some (.list [.atom "wspec", m]) => opWSpec m true
   | some (.list [.atom "wspec-edges", m]) => opWSpec m false
